@@ -195,17 +195,20 @@ Fixpoint tr_hints_ok (t : trace) : bool :=
       end
   end.
 
+(* the three clauses on a trace, given the reference items and whether fusedness is promised *)
+Definition gen_ok (refv : list val) (fused : bool) (t : trace) : bool :=
+  match tr_items t with
+  | Some its => list_eqb val_eqb its refv                           (* items = iterator adaptor *)
+  | None => false                                                   (* the end is reached *)
+  end
+  && (negb fused ||
+      (forallb is_Ended (tr_after_end t)                            (* the end is sticky *)
+       && forallb (fun x => fst (fst x) =? 0) (tr_after_end t)))    (* and nothing more is promised *)
+  && tr_hints_ok t.
+
 (* bit 1: the executable form of C11 on a trace *)
 Definition C11_holds_b (c : case) (t : trace) : bool :=
-  negb (pre_case c) ||
-  (match tr_items t with
-   | Some its => list_eqb val_eqb its (ref_case c)                  (* items = iterator adaptor *)
-   | None => false                                                   (* the end is reached *)
-   end
-   && (negb (promises_fused c) ||
-       (forallb is_Ended (tr_after_end t)                            (* the end is sticky *)
-        && forallb (fun x => fst (fst x) =? 0) (tr_after_end t)))    (* and nothing more is promised *)
-   && tr_hints_ok t).
+  negb (pre_case c) || gen_ok (ref_case c) (promises_fused c) t.
 
 Definition verdict (agree holds : bool) : N :=
   ((if agree then 0 else 1) + (if holds then 0 else 2))%N.
